@@ -108,6 +108,17 @@ fn check_bv_routes(ctx: &mut Ctx, bits: &BitsDesc) {
     let case = || serde_json::to_value(&c).unwrap();
     let got = guard(|| canonical(&Any::Bv(BitVector::from_iter(m.to_bools())), &m));
     ctx.expect(|| "convert[FromIterator<bool> -> BitVector]".to_string(), got, &None, case);
+    // "from an iterator" for the sparse type: `try_from_iter` sizes the universe to the last value plus one, so
+    // the route exists for the empty sequence and for sequences that end with a set bit.
+    let ends_set = m.runs.last().map_or(m.len == 0, |&(s, l)| s + l == m.len);
+    if ends_set && m.ones() <= 100_000 {
+        let pos: Vec<usize> = m.positions().into_iter().map(|p| p as usize).collect();
+        let got = guard(|| match SparseVector::try_from_iter(pos.iter().copied()) {
+            Ok(sv) => canonical(&Any::Sp(sv), &m),
+            Err(e) => Some(format!("try_from_iter refused the positions of a bit sequence: {}", e)),
+        });
+        ctx.expect(|| "convert[try_from_iter -> SparseVector]".to_string(), got, &None, case);
+    }
     // Uniform vectors through the filling constructor of the raw vector, and on to the other two types.
     if m.len > 0 && (m.ones() == 0 || m.zeros() == 0) {
         let fill = m.zeros() == 0;
